@@ -215,12 +215,28 @@ def default_periodic_rule(ctx, rule, p):
     col = [n.target.id for n in own_walk(fdf.node) if isinstance(n, ast.For) and isinstance(n.target, ast.Name) and ic0
            and ic0[0] in list(ast.walk(n))]
     col = col[0] if col else "?"
-    ifs = [n for n in own_walk(fdf.node) if isinstance(n, ast.If) and f"'direction' in {col}.lower()" in ast.unparse(n.test)]
-    okdir = any(f"{n_fp} = 360" in ast.unparse(ast.Module(body=i.body, type_ignores=[])) and
-                f"{n_fd} = 360" in ast.unparse(ast.Module(body=i.body, type_ignores=[])) for i in ifs)
+    from .fc import substitute_defs as _sd
+
+    def branch_values(body):
+        """constant assigned to each local in a branch body: `a = 1`, `a, b = 1, 2`"""
+        out = {}
+        for st in body:
+            if isinstance(st, ast.Assign) and len(st.targets) == 1:
+                t = st.targets[0]
+                if isinstance(t, ast.Name):
+                    out[t.id] = ast.unparse(st.value)
+                elif isinstance(t, (ast.Tuple, ast.List)) and isinstance(st.value, (ast.Tuple, ast.List)) and len(t.elts) == len(st.value.elts):
+                    for a, b in zip(t.elts, st.value.elts):
+                        if isinstance(a, ast.Name):
+                            out[a.id] = ast.unparse(b)
+        return out
+
+    def tests_for(word):
+        return [n for n in own_walk(fdf.node) if isinstance(n, ast.If)
+                and f"'{word}' in {col}.lower()" in ast.unparse(_sd(fdf.node, n.test, {col}))]
+    okdir = any(branch_values(i.body).get(n_fp) == "360" and branch_values(i.body).get(n_fd) == "360" for i in tests_for("direction"))
     ctx.expect(okdir, rule, "interpolate_dataframe_time[direction columns]", "direction columns: period 360, wrapped to [0, 360)", fdf.loc())
-    lon_ifs = [n for n in ast.walk(fdf.node) if isinstance(n, ast.If) and "longitude" in ast.unparse(n.test)]
-    oklon = any(f"{n_fp} = 360" in ast.unparse(ast.Module(body=i.body, type_ignores=[])) for i in lon_ifs)
+    oklon = any(branch_values(i.body).get(n_fp) == "360" for i in tests_for("longitude"))
     ctx.expect(oklon, rule, "interpolate_dataframe_time[longitude columns]",
                "longitude columns are interpolated with period 360 like in the sibling functions", fdf.loc())
     ic = [c for c in calls(fdf.node) if call_name(c) == "interpolate_periodic"]
@@ -268,19 +284,19 @@ def run(ctx):
     it = interp()
     r = T.to_term(it.call_function(fg, [xp, x, False, per], {}, None))
     xp0 = op("item", xp, sp.Integer(0))
-    okm = fname(r) == "pymod" and r.args[1] == op("len", xp) and fname(r.args[0]) == "tabulate"
+    from .c13 import bracket_rows
+    brp = bracket_rows(r.args[0]) if fname(r) == "pymod" and len(r.args) == 2 else None
+    okm = brp is not None and r.args[1] == op("len", xp)
     ctx.expect(okm, "R14.1", "enclosing_points_1d[indices modulo n]",
                "both bracket indices are taken modulo the number of nodes: the bin that spans the wrap exists", fg.loc(), derived=T.show(r, 200))
     if okm:
-        tab = r.args[0]
-        lv = tab.args[3]
+        lo, hi, lv = brp
         xr = xp0 + op("pymod", x - xp0, per)
-        ss = op("searchsorted", xp, op("item", xr, lv), Str("right"))
-        val = tab.args[2]
-        okv = isinstance(val, sp.Tuple) and len(val.args) == 2 and val.args[1] == ss and sp.expand(val.args[0] - (ss - 1)) == 0
+        ss = op("searchsorted", xp, op("item", xr, lv) if lv is not None else xr, Str("right"))
+        okv = hi == ss and sp.expand(lo - (ss - 1)) == 0
         ctx.expect(okv, "R14.1", "enclosing_points_1d[targets reduced modulo the period]",
                    "targets are mapped to xp0 + ((x - xp0) mod period) before the search, however many periods away", fg.loc(),
-                   derived=val, required=sp.Tuple(ss - 1, ss))
+                   derived=sp.Tuple(lo, hi), required=sp.Tuple(ss - 1, ss))
     rw = T.to_term(it.call_function(fw, [xp, x, idx, per, False, False, False], {}, None))
     rows = {}
     t_ = rw
@@ -341,11 +357,14 @@ def run(ctx):
     va = roles.get("val_assign")
     # the scale factor is the local read by the unit-vector expression whose own definition mentions the data period
     n_rad = None
+    from .fc import substitute_defs as _sd2
+    cand = [nm for nm, ds in single.items() if len(ds) == 1 and "data_period" in ast.unparse(ds[0].value)
+            and "get_data" not in ast.unparse(ds[0].value) and "np.angle" not in ast.unparse(ds[0].value)]
     if va is not None:
-        for nm_ in ast.walk(va.value):
-            if isinstance(nm_, ast.Name) and nm_.id in single and nm_.id != roles.get("idx") and any(
-                    "data_period" in ast.unparse(d.value) for d in single[nm_.id]):
-                n_rad = nm_.id
+        full_val = _sd2(pi_f.node, va.value, {roles.get("idx") or "?", "self"} | set(cand))
+        used = [nm_.id for nm_ in ast.walk(full_val) if isinstance(nm_, ast.Name) and nm_.id in cand]
+        if len(set(used)) == 1:
+            n_rad = used[0]
     if va is not None and n_rad is not None and len(single[n_rad]) == 1:
         tr = T.to_term(it3.eval(single[n_rad][0].value, env))
         ctx.equiv("R14.2", "_periodic_data_interpolator[to radians]", tr, 2 * sp.pi / P("data_period"), pi_f.loc(single[n_rad][0]),
@@ -354,7 +373,7 @@ def run(ctx):
         me.fields["get_data"] = P("get_data")
         me.fields["interp_coord_dim_indices"] = P("dims")
         env.vars[roles.get("idx") or "?"] = P("corner")
-        v = T.to_term(it3.eval(va.value, env))
+        v = T.to_term(it3.eval(full_val, env))
         data = op("apply", P("get_data"), P("corner"), P("dims"))
         ctx.equiv("R14.2", "_periodic_data_interpolator[unit vectors]", v, sp.exp(sp.I * data * P("to_rad")), pi_f.loc(va),
                   "corner values enter as exp(i * angle)", interp=it3)
